@@ -26,7 +26,11 @@ Section C05.
 
   Theorem C05_replace_relations : step_gff call SReplace force spec st f0 =
     Ok (mkSt (update_id id (fun _ => f) (s_rows st))
-             (add_rels (filter (fun x => negb (str_eqb (rel_child x) id && (rel_level x =? 1))) (s_rels st))
+             (* the replaced version's links go: its level-1 parent links and the level-2 rows that end at it or run
+                through it ([through_links], read off the table before anything is deleted); everything else stays, the
+                newcomer's Parent links are added *)
+             (add_rels (filter (fun x => negb (through_links id (s_rels st) x))
+                               (filter (fun x => negb (str_eqb (rel_child x) id && (rel_level x =? 1))) (s_rels st)))
                        (parent_links f0 id))
              (s_dups st) a).
   Proof. exact (l_replace call force spec st f0 id a Hid Hdup). Qed.
